@@ -12,8 +12,25 @@ from common import sx, parse_sx, err_name
 import fix_common as fc
 
 DRIVER = 'drv_C13'
-FIXED_EQ = False      # False: the model's `pyEq` (OrderedDict equality) is compared with the implementation's `==`;
-                      # True (after fixes/C13-group-eq-order.md has been applied to /repo): `pyEqDict`
+FIXED_EQ = None       # decided once per run by `eq_is_repaired()`: which of the model's two equalities describes the
+                      # implementation — `pyEq` (OrderedDict equality of group instances, the code as found) or `pyEqDict`
+                      # (plain-dict equality, after fixes/C13-group-eq-order.md).  The oracle does not depend on it.
+
+
+def eq_is_repaired():
+    """probe the implementation: do two instances of one group class with the same items in different order compare equal?"""
+    global FIXED_EQ
+    if FIXED_EQ is None:
+        fix = fc.fixmod()
+        a = type('ProbeA_c13', (fix.Field,), {}, Tag=99901, Name='ProbeA_c13', Type=fix.FixInt)
+        b = type('ProbeB_c13', (fix.Field,), {}, Tag=99902, Name='ProbeB_c13', Type=fix.FixInt)
+        g = type('ProbeG_c13', (fix.Group,), {'Entries': [fix.Entry(a, True), fix.Entry(b, False)]})
+        x, y = g(), g()
+        x[99901], x[99902] = 1, 2
+        y[99902], y[99901] = 2, 1
+        FIXED_EQ = bool(x == y)
+    return FIXED_EQ
+
 
 KNOWN_LOCAL = [
     {'id': 'C13-group-eq-order', 'property': 'C13', 'status': 'known',
@@ -254,7 +271,7 @@ def model_line_without_eqd(line):
     # ok, bytes, n, name, msg, eq, eqd, re
     if len(parts) != 8:
         return line
-    eq = parts[6] if FIXED_EQ else parts[5]
+    eq = parts[6] if eq_is_repaired() else parts[5]
     return f'ok {parts[1]} {parts[2]} {sx_of(parts[3])} {sx_of(parts[4])} {eq} {parts[7]}'
 
 
@@ -503,6 +520,7 @@ def rename(mdefs, d):
 def run(ctx):
     rng = ctx.rng
     quick = ctx.tier == 'quick'
+    ctx.notes.append('implementation group equality: ' + ('plain-dict (repaired)' if eq_is_repaired() else 'OrderedDict (order sensitive, known finding)'))
     n_dict = 70 if quick else 1500
     n_msg = 8 if quick else 12
     n_mal = 4 if quick else 6
